@@ -26,6 +26,18 @@ Interpretation decisions (kept no stronger than the statement):
    PixelColors table (should two entries coincide, the lower code wins: a mark painted like a wall or
    an open pixel IS one); any other colour -> code 9 -> "palette".
 
+Audit 2 (input classes C-H): observe_reps builds every maze value in other REPRESENTATIONS (Fortran / strided connection
+arrays, int8..int64 / tuple / list / numpy-scalar coordinates, constructor with generation_meta and redundant start_pos /
+end_pos, the from_* factories), passes the flags positionally / as numpy.bool_ and hands the picture to the reader as the
+caller's own int64 / int32 / Fortran / strided / negative-stride / read-only array, which is snapshotted before and
+overwritten after the read, before the returned maze is looked at.  All of these are Layer P: the record is judged on the
+projection of the constructed object.  Inputs outside the declared interface blame one Layer-M clause of their own (record
+field lay): flags left to their defaults (M:default_flags) or given as ints (M:int_flags), uint8 / int64 connection arrays
+(M:nonbool_connection_list), the 2-D black/white grid (M:bw_grid), text with surrounding blanks (M:ascii_whitespace); a call
+that changes its argument is M:argument_modified (and Layer P through the re-reads of the histories).  Unsigned coordinate
+arrays are not generated (Coord is declared Int8; differences of unsigned coordinates wrap inside as_pixels' adjacency assert).
+observe_extreme: no-edge / all-edge grids up to 12x12 with corner cells, start = end, length-1 / length-2 solutions.
+
 Canaries are corruptions of HAND-MADE records (independent of the code under test; the uncorrupted
 ones must be accepted).  Everything the library does in the driver (constructors, renderers, readers)
 is recorded as an outcome and judged; readers run under a CPU-time limit.
